@@ -132,6 +132,54 @@ struct Tracked
     static constexpr bool copyable = true;
 };
 
+// copyable, and every special member is noexcept (no fault injection): containers that switch to
+// a different code path for nothrow-assignable elements take that path with this type
+struct NxTracked
+{
+    int value = 0;
+    int origin = CONTAINER_DEFAULT;
+    bool moved_from = false;
+
+    NxTracked() noexcept : origin(reg().default_is_caller ? CALLER : CONTAINER_DEFAULT)
+    {
+        reg().born(this);
+    }
+    explicit NxTracked(int v) noexcept : value(v), origin(CALLER)
+    {
+        reg().born(this);
+    }
+    NxTracked(const NxTracked& o) noexcept : value(o.value), origin(o.origin), moved_from(o.moved_from)
+    {
+        reg().born(this);
+    }
+    NxTracked(NxTracked&& o) noexcept : value(o.value), origin(o.origin), moved_from(o.moved_from)
+    {
+        o.moved_from = true;
+        reg().born(this);
+    }
+    NxTracked& operator=(const NxTracked& o) noexcept
+    {
+        value = o.value;
+        origin = o.origin;
+        moved_from = o.moved_from;
+        return *this;
+    }
+    NxTracked& operator=(NxTracked&& o) noexcept
+    {
+        value = o.value;
+        origin = o.origin;
+        moved_from = o.moved_from;
+        if (&o != this)
+            o.moved_from = true;
+        return *this;
+    }
+    ~NxTracked()
+    {
+        reg().died(this);
+    }
+    static constexpr bool copyable = true;
+};
+
 // move-only
 struct MoTracked
 {
